@@ -293,6 +293,10 @@ def run(F, rep):
         import c09
         core.borrow(F, rep, c09, only={'C09.P1', 'C09.P2'})
     import c10
+    # clause shared with C10: equals() must not depend on an order that clone() does not preserve (the order of equivalence lists, of children)
+    if not getattr(rep, 'nested', False):
+        import core as _core11
+        _core11.borrow(F, rep, c10, only={'C10.O2'})
 
     # ------------------------------------------------------------------ G1: both sides are read the same way
     rep.rule('C11.G1', 'where doEquals compares a data member of this object with a getter called on the other object, that getter is the plain accessor of the same member (`return <member>;`): '
